@@ -53,6 +53,10 @@ func (core *JApiCore) getIncludedFilePath(keyword *scanner.Lexeme) (string, *jer
 
 	path := parameter.Value().Unquote().String()
 
+	if path == "" {
+		return "", requiredParameterNotSpecified(keyword)
+	}
+
 	if err := validateIncludeFileName(path); err != nil {
 		return "", incorrectParameter(keyword, path, err.Error())
 	}
@@ -102,7 +106,7 @@ func isIncludeKeyword(lex *scanner.Lexeme) bool {
 }
 
 func validateIncludeFileName(s string) error {
-	if s[0] == '/' {
+	if strings.HasPrefix(s, "/") {
 		return errors.New(jerr.IncludeRootErr)
 	}
 
